@@ -214,6 +214,8 @@ Serde(e) ==
   /\ Chk(e.rtBefore = 1, "C26", "graph-changed-by-serialize-deserialize-before-layout", e.msg)
   /\ Chk(e.rtAfter = 1, "C26", "graph-changed-by-serialize-deserialize-after-layout", e.msg)
   /\ Chk(e.sameResult = 1, "C26", "layout-through-the-wire-format-differs-from-in-process", e.msg)
+  \* the route-edges leg of the protocol: the plugin side reads exactly the connections it was asked to route
+  /\ \A k \in 1..Len(e.routes) : Chk(e.routes[k].asked = e.routes[k].received, "C26", "plugin-asked-to-route-other-connections-than-requested", <<e.routes[k].asked, e.routes[k].received>>)
 
 Crash(e) ==
   LET prop == CASE e.stage = "compile" -> "C07" [] e.stage = "fmt" -> "C03" [] e.stage = "layout" -> "C17" [] e.stage = "render" -> (IF stage = "layout" /\ FALSE THEN "C17" ELSE "C30") [] e.stage = "export" -> "C28" [] e.stage = "serde" -> "C26" [] OTHER -> "C17"
